@@ -138,7 +138,7 @@ struct Mismatch {
 struct SwRun<'s> {
     steps: &'s [J],
     pos: usize,
-    clock: Clock,
+    env: Env,
     owned: Vec<Option<OwnedTimerGuard>>,
     mism: Vec<Mismatch>,
     /// model bookkeeping for the statistics only
@@ -167,7 +167,7 @@ impl SwRun<'_> {
     fn check_ret(&mut self, i: usize, got: Option<Duration>) {
         let exp = self.steps[i][4].as_i64().unwrap();
         if let Some(d) = got {
-            let t = self.clock.ticks(d);
+            let t = self.env.a.ticks(d);
             if t != exp {
                 self.mism.push(Mismatch {
                     step: i,
@@ -180,25 +180,46 @@ impl SwRun<'_> {
         }
     }
 
+    /// environment steps (no code under test involved); true if the step was one
+    fn env_step(&mut self, s: &J, st: &mut Stats) -> bool {
+        match s[0].as_str().unwrap() {
+            "Advance" => self.env.a.advance(s[2].as_u64().unwrap()),
+            "AdvanceB" => self.env.b.advance(s[2].as_u64().unwrap()),
+            "Amb" => self.env.set(s[1].as_u64().unwrap(), s[2].as_u64().unwrap() == 1, st),
+            _ => return false,
+        }
+        true
+    }
+
+    fn note_env(&self, st: &mut Stats) {
+        if self.env.amb == 2 {
+            st.hit("sw_op_under_override_b");
+        }
+        if self.env.other {
+            st.hit("sw_op_on_other_thread");
+        }
+    }
+
     fn apply_owned(&mut self, i: usize, slot: usize, op: GuardOp, st: &mut Stats) {
         let g = self.owned[slot].take().unwrap_or_else(|| panic!("tool: no owned guard in slot {slot}"));
+        self.note_env(st);
         match op {
             GuardOp::Stop => {
-                let r = g.stop();
+                let r = self.env.under(move || g.stop());
                 self.check_ret(i, Some(r));
             }
-            GuardOp::Drop => drop(g),
+            GuardOp::Drop => self.env.under(move || drop(g)),
             GuardOp::Overwrite => {
                 if self.last_obs >= 0 {
                     st.hit("overwrite_over_kept");
                 }
-                g.overwrite()
+                self.env.under(move || g.overwrite())
             }
             GuardOp::Discard => {
                 if self.last_obs >= 0 {
                     st.hit("discard_with_kept");
                 }
-                g.discard()
+                self.env.under(move || g.discard())
             }
         }
     }
@@ -214,22 +235,22 @@ impl SwRun<'_> {
             let s = &self.steps[i];
             let op = s[0].as_str().unwrap();
             let slot = s[1].as_u64().unwrap() as usize;
-            if op == "Advance" {
-                self.clock.advance(s[2].as_u64().unwrap());
+            if self.env_step(s, st) {
             } else if let Some(gop) = guard_op(op) {
                 if slot == gslot {
                     let gg = g.take().unwrap();
+                    self.note_env(st);
                     match gop {
                         GuardOp::Stop => {
-                            let r = gg.stop();
+                            let r = self.env.under(move || gg.stop());
                             self.check_ret(i, Some(r));
                         }
-                        GuardOp::Drop => drop(gg),
+                        GuardOp::Drop => self.env.under(move || drop(gg)),
                         GuardOp::Overwrite => {
                             st.hit("borrowed_overwrite");
-                            gg.overwrite()
+                            self.env.under(move || gg.overwrite())
                         }
-                        GuardOp::Discard => gg.discard(),
+                        GuardOp::Discard => self.env.under(move || gg.discard()),
                     }
                     return true; // the caller observes after this step
                 } else {
@@ -250,7 +271,7 @@ impl SwRun<'_> {
     fn observe(&mut self, i: usize, sw: &Stopwatch, st: &mut Stats) {
         let exp = self.steps[i][3].as_i64().unwrap();
         assert_ne!(exp, UNOBSERVABLE, "tool: model says unobservable while the stopwatch is free");
-        let got = self.clock.opt_ticks(sw.close());
+        let got = self.env.a.opt_ticks(self.env.under(|| sw.close()));
         st.observations += 1;
         if got != exp {
             self.mism.push(Mismatch {
@@ -272,13 +293,17 @@ impl SwRun<'_> {
             let s = &self.steps[i];
             let op = s[0].as_str().unwrap();
             let slot = s[1].as_u64().unwrap() as usize;
+            if self.env_step(s, st) {
+                self.observe(i, sw, st);
+                continue;
+            }
             match op {
-                "Advance" => self.clock.advance(s[2].as_u64().unwrap()),
                 "Start" => {
                     if self.shared {
                         st.hit("borrowed_guard_on_shared_repr");
                     }
-                    let g = sw.start();
+                    self.note_env(st);
+                    let g = self.env.under(|| sw.start());
                     assert_eq!(s[3].as_i64().unwrap(), UNOBSERVABLE);
                     st.unobservable += 1;
                     if !self.run_borrowed(g, slot, st) {
@@ -294,7 +319,8 @@ impl SwRun<'_> {
                         st.hit("switch_to_shared_with_kept");
                     }
                     self.shared = true;
-                    let g = sw.start_owned();
+                    self.note_env(st);
+                    let g = self.env.under(|| sw.start_owned());
                     if self.owned.len() <= slot {
                         self.owned.resize_with(slot + 1, || None);
                     }
@@ -305,7 +331,8 @@ impl SwRun<'_> {
                     if self.owned.iter().any(|g| g.is_some()) {
                         st.hit("clear_with_live_guards");
                     }
-                    sw.clear()
+                    self.note_env(st);
+                    self.env.under(|| sw.clear())
                 }
                 _ => {
                     let gop = guard_op(op).unwrap_or_else(|| panic!("tool: unknown op {op}"));
@@ -318,15 +345,14 @@ impl SwRun<'_> {
 }
 
 fn replay_sw(id: u64, steps: &[J], tick_ns: u64, st: &mut Stats) -> Vec<Mismatch> {
-    let clock = Clock::new(tick_ns, 5);
-    // time source injection: explicitly, or through the thread-local override
-    let (mut sw, _guard) = if id % 2 == 0 {
-        (Stopwatch::new_from_timesource(clock.source()), None)
+    let env = Env::new(tick_ns, 5, 9_000_000);
+    // the stopwatch captures source A: given explicitly, or resolved from the thread-local override
+    let mut sw = if id % 2 == 0 {
+        Stopwatch::new_from_timesource(env.a.source())
     } else {
-        let g = set_time_source(clock.source());
-        (Stopwatch::new(), Some(g))
+        env.under(Stopwatch::new)
     };
-    let mut run = SwRun { steps, pos: 0, clock, owned: Vec::new(), mism: Vec::new(), last_obs: NONE, shared: false };
+    let mut run = SwRun { steps, pos: 0, env, owned: Vec::new(), mism: Vec::new(), last_obs: NONE, shared: false };
     // a freshly created stopwatch reports nothing
     if sw.close_ref_is_some() {
         run.mism.push(Mismatch {
@@ -342,15 +368,15 @@ fn replay_sw(id: u64, steps: &[J], tick_ns: u64, st: &mut Stats) -> Vec<Mismatch
     // borrowed guard is gone, which `run` guarantees by scope)
     let last = steps.last().map(|s| s[3].as_i64().unwrap()).unwrap_or(NONE);
     if last != UNOBSERVABLE {
-        let by_ref = (&sw).close();
-        let by_val = sw.close();
+        let by_ref = run.env.under(|| (&sw).close());
+        let by_val = run.env.under(move || sw.close());
         if by_ref != by_val {
             run.mism.push(Mismatch {
                 step: steps.len().saturating_sub(1),
                 kind: "close",
                 what: "Stopwatch::close by value differs from &Stopwatch::close".into(),
-                expected: json!(run.clock.opt_ticks(by_ref)),
-                got: json!(run.clock.opt_ticks(by_val)),
+                expected: json!(run.env.a.opt_ticks(by_ref)),
+                got: json!(run.env.a.opt_ticks(by_val)),
             });
         }
     }
@@ -482,32 +508,50 @@ fn check_timestamp(
     }
 }
 
-fn replay_tm(id: u64, b: &J, tick_ns: u64, st: &mut Stats) -> Vec<Mismatch> {
+fn replay_tm(_id: u64, b: &J, tick_ns: u64, st: &mut Stats) -> Vec<Mismatch> {
     let steps = b["steps"].as_array().unwrap();
     let units = b["units"].as_object().unwrap();
-    let mut clock = Clock::new(tick_ns, b["w0"].as_u64().unwrap());
-    let explicit = id % 2 == 0;
-    // TimestampOnClose can only be created from the ambient time source
-    let _guard = set_time_source(clock.source());
+    let mut env = Env::new(tick_ns, b["w0"].as_u64().unwrap(), b["w0b"].as_u64().unwrap());
     let mut mism = Vec::new();
     let mut timer: Option<Timer> = None;
     let mut ts: Option<Timestamp> = None;
     let mut toc: Option<TimestampOnClose> = None;
+    let mut toc_src = 0u8;
+    let mut timer_src = 0u8;
     for (i, s) in steps.iter().enumerate() {
         st.steps += 1;
         let op = s["op"].as_str().unwrap();
         let ret = s["ret"].as_i64().unwrap();
+        let explicit = s["a"].as_str() == Some("explicit");
         match op {
-            "Advance" => clock.advance(s["d"].as_u64().unwrap()),
+            "Advance" => env.a.advance(s["d"].as_u64().unwrap()),
+            "AdvanceB" => env.b.advance(s["d"].as_u64().unwrap()),
+            "Amb" => {
+                let a = match s["a"].as_str().unwrap() {
+                    "A" => 1,
+                    "B" => 2,
+                    _ => 0,
+                };
+                env.set(a, s["d"].as_u64().unwrap() == 1, st);
+            }
             "TimerNew" => {
-                timer = Some(if explicit { Timer::start_now_with_timesource(clock.source()) } else { Timer::start_now() })
+                // explicit source A (even under the override B), or resolved from the thread-local override
+                let src = env.a.source();
+                timer_src = if explicit { 1 } else { env.amb };
+                if explicit && env.amb == 2 {
+                    st.hit("explicit_source_under_other_override");
+                }
+                timer = Some(env.under(move || if explicit { Timer::start_now_with_timesource(src) } else { Timer::start_now() }));
             }
             "TimerStop" => {
                 let t = timer.as_mut().unwrap();
                 if s["timer"].as_i64() == steps.get(i.wrapping_sub(1)).and_then(|p| p["timer"].as_i64()) && i > 0 {
                     st.hit("timer_stop_repeated_or_immediate");
                 }
-                let r = clock.ticks(t.stop());
+                if env.amb != 0 && env.amb != timer_src {
+                    st.hit("timer_op_under_different_override");
+                }
+                let r = env.a.ticks(env.under(|| t.stop()));
                 if r != ret {
                     mism.push(Mismatch {
                         step: i,
@@ -519,19 +563,33 @@ fn replay_tm(id: u64, b: &J, tick_ns: u64, st: &mut Stats) -> Vec<Mismatch> {
                 }
             }
             "TsNew" => {
-                ts = Some(if explicit { Timestamp::new_from_time_source(clock.source()) } else { Timestamp::now() })
+                let src = env.a.source();
+                if explicit && env.amb == 2 {
+                    st.hit("explicit_source_under_other_override");
+                }
+                ts = Some(env.under(move || if explicit { Timestamp::new_from_time_source(src) } else { Timestamp::now() }));
             }
-            "TocNew" => toc = Some(TimestampOnClose::default()),
+            "TocNew" => {
+                toc_src = env.amb;
+                toc = Some(env.under(TimestampOnClose::default));
+            }
             "TocClose" => {
-                let tv = toc.take().unwrap().close();
+                let t = toc.take().unwrap();
                 st.hit("toc_close");
-                check_timestamp(tv, ret, units, &clock, i, "TimestampOnClose", &mut mism, st);
+                if env.amb != 0 && env.amb != toc_src {
+                    st.hit("toc_closed_under_different_override");
+                    if env.other {
+                        st.hit("toc_closed_on_other_thread_with_different_override");
+                    }
+                }
+                let tv = env.under(move || t.close());
+                check_timestamp(tv, ret, units, &env.a, i, "TimestampOnClose", &mut mism, st);
             }
             _ => panic!("tool: unknown op {op}"),
         }
         let exp_timer = s["timer"].as_i64().unwrap();
         if let Some(t) = &timer {
-            let got = clock.ticks(t.close());
+            let got = env.a.ticks(env.under(|| t.close()));
             st.observations += 1;
             if got != exp_timer {
                 mism.push(Mismatch {
@@ -547,22 +605,23 @@ fn replay_tm(id: u64, b: &J, tick_ns: u64, st: &mut Stats) -> Vec<Mismatch> {
         }
         let exp_ts = s["ts"].as_i64().unwrap();
         if let Some(t) = &ts {
-            check_timestamp(t.close(), exp_ts, units, &clock, i, "Timestamp", &mut mism, st);
+            let tv = env.under(|| t.close());
+            check_timestamp(tv, exp_ts, units, &env.a, i, "Timestamp", &mut mism, st);
         } else {
             assert_eq!(exp_ts, NONE);
         }
     }
     // closing by value
     if let Some(t) = timer {
-        let by_ref = (&t).close();
-        let by_val = t.close();
+        let by_ref = env.under(|| (&t).close());
+        let by_val = env.under(move || t.close());
         if by_ref != by_val {
             mism.push(Mismatch {
                 step: steps.len() - 1,
                 kind: "close",
                 what: "Timer::close by value differs from &Timer::close".into(),
-                expected: json!(clock.ticks(by_ref)),
-                got: json!(clock.ticks(by_val)),
+                expected: json!(env.a.ticks(by_ref)),
+                got: json!(env.a.ticks(by_val)),
             });
         }
     }
